@@ -841,13 +841,15 @@ def _gen_large(big):
     """(K) beyond the exhaustive scope: more rows than the default chunk_row_size (the default-argument path runs its
     loop more than once), >= 256 rows, cells of >= 256 / >= 65536 bytes (characters != bytes)"""
     D = DEFAULT_CHUNK
-    for n in ((D - 1, D, D + 1, 2 * D, 2 * D + 3) if big else (D, D + 1, 2 * D + 3)):
+    for n in ((D - 1, D, D + 1, 2 * D, 2 * D + 3) if big else (D + 1, 2 * D + 3)):
         cols = [['a', 'int32', [(i * 7919) % 100003 - 50000 for i in range(n)]],
                 ['s', 'str', ['' if i % 11 == 0 else ('x,%d' % i if i % 7 == 0 else 'v%d' % (i % 13)) for i in range(n)]],
                 ['u', 'uint8', [1, 2, 3]]]
-        yield _csv(cols, cf=['s', 'a'], chunk=None, reimp=True)
+        if big or n == D + 1:
+            yield _csv(cols, cf=['s', 'a'], chunk=None, reimp=True)
         yield _csv(cols, rf=['arr', _pat(n - 5)], cf=['a', 's'], chunk=None)
-        yield _csv(cols, rf=['arr', _pat(D + 2, 1)], cf='a', chunk=D)
+        if big or n > 2 * D:
+            yield _csv(cols, rf=['arr', _pat(D + 2, 1)], cf='a', chunk=D)
         if big:
             yield _csv(cols, rf=['arr', _pat(n, 2)], cf=['a'], chunk=D - 1)
             yield _csv(cols, cf=['a', 's'], chunk=D + 1)
@@ -855,11 +857,12 @@ def _gen_large(big):
         cols = [['a', 'int16', [i - 300 for i in range(n)]], ['s', 'str', ['é%d' % i for i in range(n)]]]
         for chunk in (255, 256, 257, None):
             yield _csv(cols, rf=['arr', _pat(n - 1)], chunk=chunk, reimp=(chunk is None))
-    for w in ((255, 256, 257, 65535, 65536, 65537, 70001) if big else (255, 256, 257, 65536, 70001)):
+    for w in ((255, 256, 257, 65535, 65536, 65537, 70001) if big else (255, 256, 257, 65537)):
         cells = ['a' * w, 'é' * (w // 2) + 'z' * (w % 2), ('q"' * w)[:w], ',' + 'b' * (w - 1), 'x' * (w - 1) + '\n', '€' * (w // 3)]
-        for chunk in (1, 4, None):
+        for chunk in ((1, 4, None) if (big or w < 1000) else (4, None)):
             yield _csv([['n', 'uint8', list(range(len(cells)))], ['s', 'str', cells]], chunk=chunk, reimp=(chunk is None and w < 1000))
-            yield _csv([['s', 'str', cells]], rf=['arr', [1, 0, 1, 1, 1, 1]], chunk=chunk)
+            if big or w < 1000 or chunk == 4:
+                yield _csv([['s', 'str', cells]], rf=['arr', [1, 0, 1, 1, 1, 1]], chunk=chunk)
 
 
 def _gen_hot(rng):
@@ -873,9 +876,14 @@ def _gen_hot(rng):
         for n in ns:
             cols = [['a', 'int32', [(i * 31) % 1009 for i in range(n)]], ['s', 'str', ['v%d' % (i % 17) for i in range(n)]],
                     ['w', 'uint16', list(range(K))], ['v', 'uint16', list(range(K - 1))], ['x', 'str', ['k'] * (K + 1)]]
+            rfs = [None, ['arr', _pat(K)], ['arr', _pat(max(0, K - 1), 1)]]
+            cfs = [['a', 's'], None]
+            if K <= 300:
+                rfs += [['arr', _pat(n)], ['mem', _pat(K + 1, 2)]]
+                cfs += [['s', 'w', 'a'], 'a']
             for chunk in chunks:
-                for rf in (None, ['arr', _pat(K)], ['arr', _pat(n)], ['arr', _pat(max(0, K - 1), 1)], ['mem', _pat(K + 1, 2)]):
-                    for cf in (['a', 's'], None, ['s', 'w', 'a'], 'a'):
+                for rf in rfs:
+                    for cf in cfs:
                         c = _csv(cols, rf=rf, cf=cf, chunk=chunk)
                         c['hot'] = tag
                         yield c
@@ -903,16 +911,17 @@ def gen(tier, rng):
     from harness import hot
     big = tier == 'thorough'
     boost = 3 if hot.changed() else 1
-    # the large cases come first so that the evidence samples (first / middle / last records) stay small
-    for c in _gen_hot(rng):
-        yield c
-    for c in _gen_large(big):
-        yield c
+    # order: small cases first (the first failing case is the one that is shrunk and reported); the large cases sit
+    # between the random and the history block so that the evidence samples (first / middle / last records) stay small
     for c in _gen_main(tier, rng):
         yield c
     for c in _gen_ragged(big):
         yield c
     for c in _gen_random_ragged((3000 if big else 300) * boost, rng):
+        yield c
+    for c in _gen_hot(rng):
+        yield c
+    for c in _gen_large(big):
         yield c
     for c in _gen_hist(big, rng):
         yield c
